@@ -1,0 +1,15 @@
+//go:build verif
+
+package internal
+
+// Contracts for the deductive checker in /verif (comment-only; compiled only under the verif tag).
+
+// Opening succeeds exactly when recomputing the commitment from (message, witness) under this key succeeds and
+// yields a commitment equal to the one presented; every scheme's Open delegates to this function.
+//@ func GenericOpen
+//@   property C18
+//@   let rc = res(key.CommitWithWitness(message, witness), 0)
+//@   let re = res(key.CommitWithWitness(message, witness), 1)
+//@   ensures result == nil ==> re == nil && rc.Equal(commitment)
+//@   ensures re != nil ==> result != nil
+//@   ensures (re == nil && !rc.Equal(commitment)) ==> result != nil
